@@ -25,6 +25,8 @@ pub mod fshim;
 pub mod gen_follower;
 pub mod cshim;
 pub mod gen_client;
+pub mod mshim;
+pub mod gen_merge;
 
 /// exact-size Vec of 0..=3 elements (no push: see DESIGN 2b)
 pub fn h_vec3<T>(n: usize, mut f: impl FnMut(usize) -> T) -> Vec<T> {
